@@ -102,9 +102,13 @@ def shape_histories(rng, sc, tier, drv):
                 open(a, "wb").write(m.bytes() + RG.G("file", b"second", data=b"2nd", level=2).raw() + b"\0")
                 archives.append(a)
     truths, bad = gtref.reference_truths(drv, archives, sc, tag="shaperef")
-    if bad:
-        raise V.HarnessError("reference run failed on header-shape archives: %r" % (bad[:2],))
     hs = []
+    for a, q in bad:
+        # the run that was to establish what the archive contains fell over: run the archive all the same, with an empty ground truth - the driver
+        # then dies again and the death is reported by validate_all as what it is
+        g = a[:-4] + ".gt.json"
+        open(g, "w").write(json.dumps({"e": "Reset", "case": os.path.basename(a), "policy": "eod", "arc": []}, separators=(",", ":")) + "\n")
+        hs.append((g, a, "eod", ["N", "N", "N"], "path"))
     for a in archives:
         if a not in truths:
             continue
